@@ -28,7 +28,7 @@ class CCM(ResourceManager):
             key=lambda x: os.stat(os.path.join(nodefile_dir, x)).st_mtime)
         nodefile = os.path.join(nodefile_dir, nodefile_name)
 
-        nodes = self._parse_nodefile(nodefile)
+        nodes = self._parse_nodefile(nodefile, cpn=rm_info.cores_per_node)
 
         if not rm_info.cores_per_node:
             rm_info.cores_per_node = self._get_cores_per_node(nodes)
